@@ -19,7 +19,10 @@ def facts_api(h):
     return [(n, it) for n, it in h.muts if n.startswith("insert_") or n.startswith("equate_")]
 
 
-def search(su, U, k, K, timeout_s=300, solver="kissat"):
+def search(su, U, k, K, timeout_s=300, solver="kissat", assume_acyclic=False, late_forbidden=None):
+    """late_forbidden: regex over mutator names that must not be asserted after an intermediate close() of history 2
+    (used to exclude the histories of a listed known finding)"""
+    import re
     import lemmas as L
     t0 = time.time()
     h1 = H.SymHistory(su, U, None)
@@ -70,6 +73,16 @@ def search(su, U, k, K, timeout_s=300, solver="kissat"):
         pos.append((idx, cl))
     for f in range(k):
         assume.append(c.orl([V.int_eq(idx, f) for idx, _ in pos]))
+    if late_forbidden:
+        for p, (_, cl) in enumerate(pos):
+            if cl == F:
+                continue
+            for q in range(p + 1, len(pos)):
+                for f in range(k):
+                    sel, alts = facts[f]
+                    for j, (name, item, args) in enumerate(alts):
+                        if re.search(late_forbidden, name):
+                            assume.append(-c.and_(cl, V.int_eq(pos[q][0], f), V.int_eq(sel, j)))
     h2.sym_close(K, False, lambda g: None, lambda rv: None)
     # compare the two closed models
     bad = []
@@ -88,6 +101,13 @@ def search(su, U, k, K, timeout_s=300, solver="kissat"):
             alloc = c.andl([s1.in_range(t, x) for t, x in zip(rel.types, row)])
             bad.append(c.and2(alloc, -c.iff(sem1.holds_mod(rel, row), sem2.holds_mod(rel, row))))
     bound = c.orl([g for g, kk, _ in ctx.events if kk in ("bound", "compact")])
+    if assume_acyclic:
+        for g, kk, msg in ctx.events:
+            if kk == "panic":
+                if "on Err" in msg:
+                    assume.append(-g)      # a cyclic morphism graph: outside the quantifier of C17
+                else:
+                    bad.append(g)
     enc = time.time() - t0
     try:
         r, model = terms.solve(c, ctx.assumes + h1.assume + h2.assume + assume + [-bound, c.orl(bad)], solver=solver, timeout_s=timeout_s)
